@@ -73,6 +73,8 @@ def instrumented(rec):
         return f._rep if isinstance(f._rep, str) else str(f._rep)
     def add_literal(self, backend):
         self._sd_own = True
+        if sdcalls and sdactive:
+            sdcalls[-1]["ops"].append([sdactive[-1][0], sdactive[-1][1], "lit"])      # the pair being translated takes its literal now
         return orig_al(self, backend)
     sddepth = [0]
     sdactive = []
@@ -716,6 +718,8 @@ def check_theory_calls(text, H, model_exe):
         seen_tr = False
         regs, trs, last = set(), set(), {}
         for op in c["ops"]:
+            if op[2] == "lit":
+                continue
             key = (op[0], op[1])
             if op[2] == "add":
                 if op[4] == 0:
@@ -918,6 +922,9 @@ def recursion_chunk(args):
     for text in texts:
         try:
             st, d = check_translate_recursion(text, H)      # `run_telingo` has its own time limit
+            st2, d2 = check_translate_execution(text, H, tl.LeanExe("telmodel"))
+            st = dict(st); st.update({"executed_" + k: v for k, v in st2.items()})
+            d = d + d2
         except BaseException as e:  # noqa
             if isinstance(e, KeyboardInterrupt):
                 raise
@@ -932,3 +939,106 @@ def recursion_chunk(args):
         tot["programs"] = tot.get("programs", 0) + 1
         dis += d
     return tot, dis
+
+
+def check_translate_execution(text, H, model_exe):
+    """
+    The recursion model *executed* on the graph of a real run (driver command `trrec`, TelModel/TranslateRec.lean `trAll`): the pairs
+    of the run are numbered; the kind of a pair comes from its class and the number of `translate` calls it makes on other pairs
+    while it has no literal (its operands, in order); the roots are the calls made from the todo loop or from a pair that
+    already has a literal (the resolution of a next placeholder); ranks are the depths in the operands-first relation.  Compared:
+    the order in which the pairs obtain their literal — `add_literal` (box / diamond: before the unfolding; connectives: after
+    the operands), assignment (alias, leaf: when the call returns) — and that no assertion fails.
+    Returns (stats, disagreements).
+    """
+    res, rec = run(text, H)
+    dis, st = [], {"pairs": 0, "roots": 0, "literal_events": 0}
+    idx, kinds_src, roots, real_log = {}, {}, [], []
+    def num(key):
+        if key not in idx:
+            idx[key] = len(idx)
+        return idx[key]
+    for c in rec["sd_calls"]:
+        stack = []          # frames: [key, cls, had, children, own_event_seen]
+        for op in c["ops"]:
+            key = (op[0], op[1])
+            if op[2] == "lit":
+                if stack and stack[-1][0] == key:
+                    stack[-1][4] = True
+                real_log.append(num(key))
+                continue
+            if op[2] != "tr" or len(op) < 6:
+                continue
+            if op[5] == "enter":
+                k = num(key)
+                if not stack or stack[-1][2]:
+                    if len(stack) >= 2 and not op[7]:
+                        # a next placeholder is resolved in the middle of another pair's translation (its `done` flag is not part of
+                        # the recursion model, which only knows "has a literal"): this run is left out
+                        st["skipped_nested_placeholder_resolution"] = 1
+                        return st, dis
+                    roots.append(k)
+                else:
+                    stack[-1][3].append(k)
+                stack.append([key, op[6], op[7], [], False])
+            elif stack and stack[-1][0] == key:
+                fr = stack.pop()
+                if not fr[2]:
+                    if not fr[4]:
+                        f = rec["sd_objects"].get(key)
+                        d = f._BodyFormula__data.get(key[1]) if f is not None else None
+                        if d is not None and d.literal is not None and num(key) not in kinds_src:
+                            real_log.append(num(key))          # literal by assignment, when the call returns
+                    if num(key) not in kinds_src:
+                        kinds_src[num(key)] = (fr[1], fr[3])
+    n = len(idx)
+    if n == 0:
+        return st, dis
+    kinds, edges = [], {}
+    for k in range(n):
+        cls, ch = kinds_src.get(k, ("Atom", []))
+        base = REC_KIND.get(cls)
+        if base == "leaf" or (base == "alias" and len(ch) == 0):
+            kinds.append("leaf"); continue
+        if base == "alias" and len(ch) == 1:
+            kinds.append(("alias", ch[0])); edges[k] = ch; continue
+        if base == "early" and len(ch) == 1:
+            kinds.append(("early", ch[0])); continue
+        if base == "op-recheck" and len(ch) == 2:
+            kinds.append(("op", 1, ch[0], ch[1])); edges[k] = ch; continue
+        if base == "op" and 1 <= len(ch) <= 3:
+            kinds.append(("op", 0, ch[0], ch[0]) if len(ch) == 1 else (("op", 0, ch[0], ch[1]) if len(ch) == 2 else ("op3", ch[0], ch[1], ch[2])))
+            edges[k] = ch; continue
+        dis.append({"layer": "L4-recursion-run", "text": text, "what": "a pair with a number of operands the model has no kind for", "class": cls, "operands": len(ch)})
+        return st, dis
+    rank = {}
+    import sys as _sys
+    _sys.setrecursionlimit(max(_sys.getrecursionlimit(), 20000))
+    busy = set()
+    def rk(u):
+        if u in rank:
+            return rank[u]
+        if u in busy:
+            return None
+        busy.add(u)
+        r = 0
+        for v in edges.get(u, ()):
+            x = rk(v)
+            if x is None:
+                return None
+            r = max(r, x + 1)
+        busy.discard(u)
+        rank[u] = r
+        return r
+    for k in range(n):
+        if rk(k) is None:
+            dis.append({"layer": "L4-recursion-run", "text": text, "what": "the operands-first relation of the run has a cycle (no rank: Graph.ok fails)"})
+            return st, dis
+    line = tl.sexp(("trrec", 1, tuple(kinds), tuple(rank[k] for k in range(n)), tuple(roots)))
+    out = model_exe.batch([line])[0].strip()
+    want = "ok ({}) 0".format(" ".join(str(x) for x in real_log))
+    st["pairs"], st["roots"], st["literal_events"] = n, len(roots), len(real_log)
+    if " ".join(out.split()) != want:
+        dis.append({"layer": "L4-recursion-run", "text": text, "what": "the order in which the pairs obtain their literal differs from the recursion model",
+                    "model": out[:300], "impl": want[:300]})
+    return st, dis
